@@ -121,7 +121,9 @@ func runC19(cfg runCfg, res *Result) error {
 		if err != nil {
 			return err
 		}
-		var rp struct{ Case c19Case `json:"case"` }
+		var rp struct {
+			Case c19Case `json:"case"`
+		}
 		if err := json.Unmarshal(b, &rp); err != nil {
 			return err
 		}
